@@ -347,6 +347,55 @@ def rule_shape_blocking(chk, prog, only=None):
         (r.bad if bad else r.ok)(name, fn.where(), bad or "%d (segment, start side) scans" % n)
 
 
+def rule_rect_winding(chk, prog):
+    """Avoid::Rectangle's constructors feed inPoly (which needs one fixed winding): the winding must not depend on how the corners are given."""
+    from ..microai.interp import Interp, Oracle, default_obj
+    r = chk.rule("RECT-WINDING", "Avoid::Rectangle(corner, corner) interpreted for the two corners given in all four ways (either diagonal, either "
+                 "order) and Rectangle(centre, width, height): the four vertices are the four corners of the same box and the signed area has "
+                 "the same sign every time -- inPoly decides by `point is on the same side of every edge` and answers `outside` for every "
+                 "point of a rectangle wound the other way round", floor=5)
+    cands = [f for f in prog.all_functions() if f.kind == "ctor" and f.cls == "Avoid::Rectangle" and f.body is not None and f.tmpl != "pattern"]
+    two = [f for f in cands if len(f.params) == 2]
+    three = [f for f in cands if len(f.params) == 3]
+    if len(two) != 1 or len(three) != 1:
+        raise AnalysisBroken("Avoid::Rectangle constructors not found")
+
+    def pt(x, y):
+        return default_obj(prog, "Avoid::Point", {"x": Fraction(x), "y": Fraction(y), "id": 0, "vn": 8})
+
+    def build(fn, args):
+        it = Interp(prog, Oracle([]))
+        o = default_obj(prog, "Avoid::Rectangle", {})
+        o.f["ps"] = Vec([pt(0, 0) for _ in range(4)], "Avoid::Point")
+        it.ctor_hooks = {"Avoid::Polygon": lambda it_, ob, a_, env: None}
+        try:
+            it.call(fn, o, None, None, arg_values=args)
+        except Unsupported as e:
+            raise AnalysisBroken("Rectangle constructor outside the interpreter subset: %s" % e)
+        vs = [(p_.f["x"], p_.f["y"]) for p_ in o.f["ps"].items]
+        area2 = sum(vs[i][0] * vs[(i + 1) % 4][1] - vs[(i + 1) % 4][0] * vs[i][1] for i in range(4))
+        return vs, area2
+    box = (1, 2, 7, 5)       # xMin, yMin, xMax, yMax
+    corners = {(1, 2), (7, 2), (7, 5), (1, 5)}
+    ref = None
+    cases = [("Rectangle(centre, w, h)", three[0], [pt(4, Fraction(7, 2)), Fraction(6), Fraction(3)]),
+             ("corners (xMin,yMin),(xMax,yMax)", two[0], [pt(1, 2), pt(7, 5)]), ("corners (xMax,yMax),(xMin,yMin)", two[0], [pt(7, 5), pt(1, 2)]),
+             ("corners (xMin,yMax),(xMax,yMin)", two[0], [pt(1, 5), pt(7, 2)]), ("corners (xMax,yMin),(xMin,yMax)", two[0], [pt(7, 2), pt(1, 5)])]
+    for name, fn, args in cases:
+        vs, a2 = build(fn, args)
+        r.count()
+        bad = None
+        if set(vs) != corners:
+            bad = "vertices %s are not the four corners of the box" % [(str(a), str(b)) for a, b in vs]
+        elif a2 == 0:
+            bad = "degenerate polygon"
+        elif ref is None:
+            ref = 1 if a2 > 0 else -1
+        elif (1 if a2 > 0 else -1) != ref:
+            bad = "the rectangle is wound the other way round than Rectangle(centre, w, h) builds it: inPoly reports every point as outside"
+        (r.bad if bad else r.ok)(name, fn.where(), bad or "")
+
+
 def run(chk):
     prog = chk.load(None)
     tier = chk.tier
@@ -380,6 +429,7 @@ def run(chk):
 
     total_rows, total_real, total_grid = run_subjects(chk, prog, tier)
     chk.guard(rule_intersection_point, chk, prog)
+    chk.guard(rule_rect_winding, chk, prog)
     chk.guard(rule_shape_blocking, chk, prog, None if tier == "thorough" else ("square", "triangle"))
     chk.extra["decision_tree_paths"] = total_rows
     chk.extra["realisable_sign_classes"] = total_real
